@@ -83,6 +83,9 @@ def _violations(case, obs):
 def oracle(case, obs):
     if obs["raised"].startswith("escape"):
         return f"unexpected exception escaped do(): {obs['raised']}"
+    why = sc.clock_oracle(obs)
+    if why:
+        return why
     tr = obs["trace"]
     if not tr or tr[-1][0] not in ("DoReturn", "DoRaise"):
         return "lifecycle events after do() ended (a still-alive doer was not exited before the run returned)"
